@@ -231,10 +231,7 @@ def run(ctx, build):
 
 def model_correspondence(ctx):
     """differential runs of the extracted Coq models of this property's cores against the real classes"""
-    import fat_alloc_corr
-    lib.corr_run(ctx, fat_alloc_corr)
-    SPEC['theorems'].update(getattr(fat_alloc_corr, 'SPEC_THEOREMS', {}))
-    SPEC['trusted_base'].extend(x for x in getattr(fat_alloc_corr, 'TRUSTED', []) if x not in SPEC['trusted_base'])
+    lib.corr_modules(ctx, SPEC, ['fat_alloc_corr', 'fat_data_corr'])
 
 
 def replay(ctx, obj):
